@@ -383,7 +383,8 @@ def run(ctx):
     ctx.rule = (
         "dist: fixed graph family x measures x worker counts x silence "
         "levels 0..3, every schedule of the master/slave threads with <= b "
-        "preemptions (b=1 quick, 2 thorough on the small configurations), "
+        "preemptions (quick: b=2 on the small configurations, 1 elsewhere; "
+        "thorough: 3 and 2), "
         "default schedule for the larger worker counts; chunks: every "
         "contiguous chunking of [0,N) for all connected graphs <= 5 nodes "
         "(iso(6) thorough); pool: cpu_count 1..N+2 x every batch order.  "
@@ -398,10 +399,10 @@ def run(ctx):
                 for S in (2, 3, 4):
                     small = g in ("ring11", "ring23")
                     if thorough:
-                        b = 2 if small and S <= 3 else 1
+                        b = 3 if small and S <= 3 else 2
                     else:
-                        b = 1 if (small and S <= 3 and silence in (0, 2)) \
-                            else 0
+                        b = 2 if (small and S <= 3 and silence in (0, 2)) \
+                            else 1
                     cases.append([g, m, S, silence, b])
                 extra = (6, 9, 13) if thorough else (7,)
                 for S in extra:
